@@ -176,7 +176,7 @@ Qed.
 
 Lemma inv_m_init p v : inv_b p = true -> m_init p v = Ok p.
 Proof.
-  intros H. apply m_init_chunks; [apply inv_chunks, H|]. right. apply inv_validate, H.
+  intros H. apply m_init_chunks; [apply inv_chunks, H|]. right. split; [apply inv_validate, H|apply inv_norm, H].
 Qed.
 
 (* ---------- slice ---------- *)
@@ -276,6 +276,12 @@ Proof.
     reflexivity. }
   rewrite E. destruct v; [|reflexivity].
   (* validate = true is not needed by the callers, but holds as well *)
+  rewrite drop_hidden_id.
+  2:{ unfold norm_missing_all_b, k_take. rewrite encode_unfold. cbn [chunks forallb]. rewrite andb_true_r.
+      apply encode_norm_missing.
+      - cbn [snd]. unfold decode. cbn [snd]. rewrite !map_length, seq_length. reflexivity.
+      - unfold dec_norm_b. cbn [fst snd sel map]. apply forallb_forall. intros col Hin.
+        apply in_map_iff in Hin as (c & <- & _). reflexivity. }
   unfold m_validate, k_take, encode. cbn [chunks forallb]. rewrite andb_true_r.
   unfold m_validate_chunk, same_offsets_b. cbn [sfields sel map fst snd].
   destruct (map2 _ (ctype p) _) as [|f0 t] eqn:Ef; [reflexivity|].
@@ -598,9 +604,12 @@ Proof.
   rewrite !rebase_cumsum0. apply cumsum0_eqb.
 Qed.
 
-Lemma m_init_encode sch d : m_init (encode sch d) true =
-  if m_validate (encode sch d) then Ok (encode sch d) else Err.
-Proof. reflexivity. Qed.
+Lemma m_init_encode sch d : length sch = length (snd d) -> dec_norm_b d = true ->
+  m_init (encode sch d) true = if m_validate (encode sch d) then Ok (encode sch d) else Err.
+Proof.
+  intros Hs Hn. transitivity (if m_validate (encode sch d) then Ok (m_drop_hidden (encode sch d)) else Err); [reflexivity|].
+  rewrite (drop_hidden_encode sch d Hs Hn). reflexivity.
+Qed.
 
 (* ---------- take with a fill row: the decoded result ---------- *)
 
@@ -768,7 +777,7 @@ Proof.
         pose proof (dfill_shape _ ix fs _ Hok Hs) as Hs'.
         destruct (dec_shape_parts _ _ Hs) as [Hlen _].
         destruct (dec_shape_parts _ _ Hs') as [Hlen' _].
-        rewrite m_init_encode, m_validate_encode by (symmetry; exact Hlen').
+        rewrite (m_init_encode _ _ (eq_sym Hlen') (dfill_norm _ ix fs _ Hs Hn)), m_validate_encode by (symmetry; exact Hlen').
         change (lrow_rect (Some fs)) with (row_rect (Some fs)).
         destruct (row_rect (Some fs)) eqn:Er.
         -- rewrite dfill_rect_true by (try assumption; lia). cbn [negb res_map].
